@@ -29,11 +29,14 @@ def run_one(sid, tier, props_override=None):
     props = props_override or meta.get("checks") or [meta["property"]]
     wt = tempfile.mkdtemp(prefix=f"seed_{sid}_", dir="/tmp")
     os.rmdir(wt)
-    base = meta.get("base", "HEAD")
+    # prefer the current HEAD of /repo; fall back to the commit the change was written against
+    base = "HEAD"
+    if sh(["git", "-C", "/repo", "apply", "--check", os.path.join(d, "patch.diff")]).returncode:
+        base = meta.get("base", "HEAD")
     r = sh(["git", "-C", "/repo", "worktree", "add", "-q", "--detach", wt, base])
     if r.returncode:
         return dict(id=sid, error="worktree: " + r.stdout)
-    out = dict(id=sid, property=meta["property"], checks={})
+    out = dict(id=sid, property=meta["property"], checks={}, applied_on=base)
     try:
         demo = os.path.join(d, "demo.py")
         env = dict(os.environ, PYTHONPATH=wt)
